@@ -12,11 +12,15 @@ EXPLANATION = ('Theorems about the Lean engine model `Core3` (Core + no_eq + unt
                'reflect the cell values of the revision (`c04_results`: soundness of Core3 for every history with cell writes, lru kinds '
                'and evictions included — stage S3b, invariant `InvE`). The Core3 model is tied to salsa by exact comparison of values and WillExecute / '
                'DidValidateMemoizedValue sequences on generated programs with cells, no_eq and lru kinds, lrucap / evict ops.')
-ASSUMPTIONS = ['cell changes are followed by a new revision (as the property states)', '`c04_dependents_reused` (dependents of an untracked query whose value did not change are reused) is checked by the event comparison, not yet a theorem']
+ASSUMPTIONS = ['cell changes are followed by a new revision (as the property states)', 'untracked reads inside fixpoint cycles are covered by the oracle run only (flavour 5 of the cyclic generator)', '`c04_dependents_reused` (dependents of an untracked query whose value did not change are reused) is checked by the event comparison, not yet a theorem']
 
 def ties(ctx):
     n = 8000 if ctx.tier == 'quick' else 100000
-    return [run_seq(ctx, 'core3', n, model='core3', corpus='CORE3-SEQ')]
+    m = 4000 if ctx.tier == 'quick' else 100000
+    return [run_seq(ctx, 'core3', n, model='core3', corpus='CORE3-SEQ'),
+            # untracked reads INSIDE fixpoint cycles (a head that reads the cell in some iterations only, in all, in none): oracle
+            # only — the exact self-loop reference of the harness; neither Core3 nor CycleRev models cells inside cycles
+            run_seq(ctx, 'cycle', m, seed_offset=16, tag='cycle-untracked', gen_extra=['--flavours', '5'])]
 
 def search(ctx, reason):
     t = run_seq(ctx, 'core3', 300000, seed_offset=95, tag='search-core3')
